@@ -1,6 +1,36 @@
 //! Modes that exercise the pure helper functions of deserr (pointers, kind phrases, did-you-mean...).
-use deserr::ValuePointerRef;
+use deserr::errors::helpers::did_you_mean;
+use deserr::errors::json::value_kinds_description_json;
+use deserr::{ValueKind, ValuePointerRef};
 use serde_json::{json, Value as J};
+
+const KINDS: [ValueKind; 8] = [
+    ValueKind::Null,
+    ValueKind::Boolean,
+    ValueKind::Integer,
+    ValueKind::NegativeInteger,
+    ValueKind::Float,
+    ValueKind::String,
+    ValueKind::Sequence,
+    ValueKind::Map,
+];
+
+/// all sequences of length n over the 8 kinds, first element slowest (same order as Kinds.all_seqs)
+fn all_seqs(n: usize) -> Vec<Vec<ValueKind>> {
+    if n == 0 {
+        return vec![vec![]];
+    }
+    let rest = all_seqs(n - 1);
+    let mut out = vec![];
+    for k in KINDS {
+        for r in &rest {
+            let mut v = vec![k];
+            v.extend(r.iter().copied());
+            out.push(v);
+        }
+    }
+    out
+}
 
 fn with_path<R>(steps: &[J], cur: ValuePointerRef, f: &dyn Fn(ValuePointerRef) -> R) -> R {
     match steps.split_first() {
@@ -43,6 +73,76 @@ pub fn handle(mode: &str, j: &J) -> J {
                 })
             })
         }
+        "kinds_sweep" => {
+            // phrase of every sequence of length 0..=maxlen, as a dictionary + one index per sequence
+            let maxlen = j["maxlen"].as_u64().unwrap() as usize;
+            let mut dict: Vec<String> = vec![];
+            let mut idx: Vec<usize> = vec![];
+            for n in 0..=maxlen {
+                for s in all_seqs(n) {
+                    let p = value_kinds_description_json(&s);
+                    let i = match dict.iter().position(|d| *d == p) {
+                        Some(i) => i,
+                        None => {
+                            dict.push(p);
+                            dict.len() - 1
+                        }
+                    };
+                    idx.push(i);
+                }
+            }
+            json!({"dict": dict, "idx": idx})
+        }
+        "kinds" => {
+            let ks: Vec<ValueKind> =
+                j["kinds"].as_array().unwrap().iter().map(|k| KINDS[k.as_u64().unwrap() as usize]).collect();
+            json!({"phrase": value_kinds_description_json(&ks)})
+        }
+        "dym" => {
+            let acc: Vec<&str> = j["accepted"].as_array().unwrap().iter().map(|s| s.as_str().unwrap()).collect();
+            json!({"dym": did_you_mean(j["received"].as_str().unwrap(), &acc)})
+        }
+        "dym_sweep" => {
+            // every (received, single candidate) pair over the alphabet up to maxlen:
+            // one char per pair: '0' = no suggestion, '1' = suggestion naming the candidate, '?' = anything else
+            let alpha: Vec<char> = j["alphabet"].as_str().unwrap().chars().collect();
+            let maxlen = j["maxlen"].as_u64().unwrap() as usize;
+            let words = all_words(&alpha, maxlen);
+            let mut bits = String::with_capacity(words.len() * words.len());
+            for r in &words {
+                for a in &words {
+                    let d = did_you_mean(r, &[a.as_str()]);
+                    bits.push(if d.is_empty() {
+                        '0'
+                    } else if d == format!("did you mean `{}`? ", a) {
+                        '1'
+                    } else {
+                        '?'
+                    });
+                }
+            }
+            json!({"n": words.len(), "bits": bits})
+        }
         _ => json!({"unknown_mode": mode}),
     }
+}
+
+/// all words of length 0..=maxlen over the alphabet, by length then lexicographic (first char slowest)
+fn all_words(alpha: &[char], maxlen: usize) -> Vec<String> {
+    let mut out = vec![];
+    let mut cur = vec![String::new()];
+    out.extend(cur.iter().cloned());
+    for _ in 0..maxlen {
+        let mut next = vec![];
+        for w in &cur {
+            for c in alpha {
+                let mut x = w.clone();
+                x.push(*c);
+                next.push(x);
+            }
+        }
+        out.extend(next.iter().cloned());
+        cur = next;
+    }
+    out
 }
